@@ -112,7 +112,7 @@ class Verifier(Interp):
             return None
         if callable(r):
             return r(Setup(self), args_frame)
-        if r in ("int", "real", "bool", "ref"):
+        if r in ("int", "real", "bool", "ref", "oref"):
             return fresh(r, "ret_" + c.short.split(".")[-1])
         if isinstance(r, str) and r.startswith("arr:"):
             a = SArr.fresh(r[4:], name="ret")
@@ -150,6 +150,8 @@ class Verifier(Interp):
         vars["result"] = res
         for j, cl in enumerate(c.ensures):
             lab, text = split_label(cl, f"post{j}")
+            if "ncalls(" in text or "callarg(" in text:
+                continue  # effect clause about the callee's own execution: not usable at a call site
             v = eval_clause(self, text, vars, func.globs, old_vars=old, extra=self.spec_extra)
             self.assume(v)
         return res
